@@ -2900,7 +2900,10 @@ impl Database {
                 }
 
                 let output_source_indices: Vec<(usize, crate::types::DataType)> = {
-                    if let Some(project_exprs) = find_project_exprs(physical_plan.root) {
+                    // SELECT * has no projection expressions: its columns are found by name below
+                    if let Some(project_exprs) =
+                        find_project_exprs(physical_plan.root).filter(|exprs| !exprs.is_empty())
+                    {
                         project_exprs
                             .iter()
                             .zip(output_columns.iter())
@@ -3721,7 +3724,10 @@ impl Database {
                 }
 
                 let output_source_indices: Vec<(usize, crate::types::DataType)> = {
-                    if let Some(project_exprs) = find_project_exprs(physical_plan.root) {
+                    // SELECT * has no projection expressions: its columns are found by name below
+                    if let Some(project_exprs) =
+                        find_project_exprs(physical_plan.root).filter(|exprs| !exprs.is_empty())
+                    {
                         project_exprs
                             .iter()
                             .zip(output_columns.iter())
